@@ -43,6 +43,13 @@ long gap (each hundreds of buffers), for EVERY public route that is given a buff
     documented default of 250 000) on a chromosome 34 default buffers long, FASTA in, FASTA out, no caches.
 The files include UNWRAPPED / long-line FASTA (whole record on one line, or lines tens of buffers long): the
 statement allows one input line while indexing only, so the streaming routes get no allowance for the line.
+Indexing, lines longer than the buffer (long_line_check): "buffer-size residues plus ONE input line, however long the
+chromosome" - so the indexing routes are measured on records MANY lines long whose lines are longer than the buffer
+(line = buffer + 1, 2 x buffer -+ 1, 10 x, 20 x, 100 x, thousands of buffers; buffers 1 .. 50 000; lines up to 250 000
+residues = "unwrapped" chromosomes cut into a few dozen lines; LF and CRLF; a mixed record and a record that is one long
+gap).  Each record is >= 60 lines and >= 8 x the allowance for its (buffer, line), so an indexer that takes less than a
+line out of its buffer per line read, or puts long lines aside, holds several times the allowance; the same file
+indexed with a buffer larger than everything shows what holding a record costs (memory_discrimination).
 Allowance (memory_limit): 16 x buffer_size + 64 KiB (+ 8 x input line while indexing); unchanged tree: 5-40 KB.
 Every file has records >= 2 x that limit (4.5 x in the quick tier), and the same routes are run with a buffer larger than
 everything: those peaks (not judged; reported under memory_discrimination) are 4-13 x the limit, i.e. a route
@@ -471,6 +478,24 @@ def long_record(n, seed):
     return b"".join(parts)
 
 
+_ACGT8 = bytes(b"ACGTacgt"[i % 8] for i in range(256))
+_OTHER4 = bytes(b"NnRN"[i % 4] for i in range(256))
+
+
+def long_record_fast(n, seed):
+    """as long_record (few long runs, ACGT and other symbols in turn, n residues), for records of several MB"""
+    rng = random.Random(seed)
+    parts = []
+    total = 0
+    k = 0
+    while total < n:
+        ln = min(n - total, rng.randint(n // 7, n // 4))
+        parts.append(rng.randbytes(ln).translate(_ACGT8) if k % 2 == 0 else rng.randbytes(min(ln, 5000)).translate(_OTHER4))
+        total += len(parts[-1])
+        k += 1
+    return b"".join(parts)
+
+
 def gap_record(n_gap):
     """two short contigs around ONE run of n_gap non-ACGT residues (a gap hundreds of buffers long in the file)"""
     return b"ACGTTGCAAC" + (b"NNNNnNNRNn" * (n_gap // 10 + 1))[:n_gap] + b"GATTACA"
@@ -720,6 +745,77 @@ def memory_check(d, bs, n_buffers, width, seed, eol=b"\n", line_lengths=(), all_
     return msgs, peaks
 
 
+MAX_RECORD = 16_000_000
+
+
+def long_line_check(d, bs, width, seed, eol=b"\n", gappy=True, object_route=False, min_lines=60):
+    """
+    the indexing routes with a small buffer on records of MANY lines, each line `width` > bs residues long
+    -> (messages, measured peaks, length of the records).  Records: 'long' (a few long runs of ACGT / other symbols) and,
+    if gappy, 'gappy' (one gap), each max(min_lines lines, 8 x the allowance for (bs, width)) residues - at most MAX_RECORD
+    (16 million: then still >= 4 x the allowance, or the job is refused) -, last line partial.
+    """
+    msgs, peaks = [], {}
+    limit = memory_limit(bs, width, True)
+    n = min(max(min_lines * width, 8 * limit), MAX_RECORD) + width // 3 + 1  # files stay well below 20 MB
+    if n < 4 * limit:
+        raise ValueError(f"buffer {bs} / line {width}: a record of {n} residues is less than 4 x the allowance {limit}, the measurement would not discriminate")
+    recs = [G.Rec("short", b"ACGTNNAC"), G.Rec("long", long_record_fast(n, seed))]
+    if gappy:
+        recs.append(G.Rec("gappy", gap_record(n - 17)))
+    case = G.FastaCase(recs, width, eol, True)
+    big = max(DEFAULT_BUFFER, n) + 1000
+    n_lines = -(-n // width)
+    layout = f"FASTA file lines of {width} = {width / bs:.4g} buffers, records of {n} residues = {n_lines} lines each"
+    path = d / "lines.fa"
+    case.write(path)
+    opened = []
+
+    def measured(label, fn, judged=True):
+        peak, res = traced_peak(fn)
+        peaks[label] = peak
+        if judged and peak > limit:
+            msgs.append(
+                f"{label}: peak traced memory {peak} bytes > limit {limit} = 16 x buffer + 64 KiB + 8 x line (buffer_size {bs}, {layout}): "
+                f"more than a few buffers and lines were held at once - about {peak / width:.1f} lines, {100 * peak / n:.0f} % of a record"
+            )
+        return res
+
+    try:
+        label = "indexing records of many lines, each longer than the buffer"
+        try:
+            idx, asm = measured(label, lambda: index_fasta_file(path, bs))
+        except Exception as e:  # noqa: BLE001
+            return [f"{label}: index_fasta_file(path, {bs}) raised {e!r} ({layout})"], peaks, n
+        for r in case.records:
+            info = idx.get(r.name)
+            if info is None or info.length != len(r.seq):
+                msgs.append(f"{label}: record '{r.name}' indexed with length {getattr(info, 'length', None)}, file has {len(r.seq)} ({layout}, buffer_size {bs})")
+        idx_big, asm_big = measured("large buffer: " + label, lambda: index_fasta_file(path, big), False)
+        if (index_rows(idx_big), agp_text(asm_big)) != (index_rows(idx), agp_text(asm)):
+            msgs.append(f"{label}: index_fasta_file with buffer {bs} and buffer {big} give different faidx rows / derived assemblies ({layout})")
+        got = [[sc.name, [row_spec(r)[:5] if row_spec(r)[0] == "F" else row_spec(r)[:2] for r in sc.rows]] for sc in asm.scaffolds]
+        want = [[nm, [sp[:5] if sp[0] == "F" else sp[:2] for sp in rows]] for nm, rows in derived_specs(case)]
+        if [[nm, [list(x) for x in rows]] for nm, rows in got] != [[nm, [list(x) for x in rows]] for nm, rows in want]:
+            msgs.append(f"{label}: the derived assembly is not the maximal runs of the file ({layout}, buffer_size {bs})")
+        if object_route:
+            drop_caches(path)
+            fi = FastaIndex(path, buffer_size=bs)
+            opened.append(fi)
+            label = f"indexing through FastaIndex(path, buffer_size={bs}).auto_load() records of many lines, each longer than the buffer"
+            try:
+                measured(label, fi.auto_load)
+                if fi.index is None or index_rows(fi.index) != index_rows(idx):
+                    msgs.append(f"{label}: faidx rows differ from those of index_fasta_file(path, {bs}) ({layout})")
+            except Exception as e:  # noqa: BLE001
+                msgs.append(f"{label} raised {e!r} ({layout})")
+    finally:
+        for fi in opened:
+            close_index(fi)
+        G.remove_with_caches(path)
+    return msgs, peaks, n
+
+
 def discrimination(peaks, bs, width):
     """
     for every route measured with both buffers: does the large-buffer run (which by the statement may hold a whole
@@ -808,6 +904,11 @@ def replay(inp):
         if inp["kind"] == "cli-memory":
             msgs, _ = cli_memory_check(d, inp["n_buffers"], inp["seed"])
             return pick(msgs, inp.get("route"))
+        if inp["kind"] == "long-lines":
+            msgs, _, _ = long_line_check(
+                d, inp["buffer_size"], inp["width"], inp["seed"], b"\r\n" if inp.get("eol") == "CRLF" else b"\n", inp.get("gappy", True), inp.get("object_route", False)
+            )
+            return pick(msgs, inp.get("route"))
         case = G.FastaCase.from_spec(inp["case"])
         if inp["kind"] == "shared":
             steps = [[st[0], st[1], st[2], [(n, sp) for n, sp in st[3]]] for st in inp["steps"]]
@@ -830,7 +931,8 @@ def run(tier, seed, **opts):
         "evaluation = one (file, all buffers) index comparison or one (file, assembly, all buffers) stream comparison or "
         "one tracemalloc measurement of one route (index_fasta_file, FastaIndex.auto_load cold / stale / warm, run_indexing, "
         "FastaStream over those indexes - output lines of 60 and far longer than the buffer, up to unwrapped -, pretext-to-asm in the thorough tier) "
-        "on records hundreds of buffers long, wrapped at 60..100 and unwrapped / long-line files; every streamed case also: no single write() carries "
+        "on records hundreds of buffers long, wrapped at 60..100 and unwrapped / long-line files; indexing also on records of >= 60 lines whose lines are "
+        "longer than the buffer (buffer + 1 .. thousands of buffers, lines up to 250 000); every streamed case also: no single write() carries "
         "more than buffer-size residues of one row; or one script of 2..6 calls on ONE FastaIndex object (several FastaStreams with different gap "
         "characters N n - X, line lengths, assemblies and buffer_size settings, in every order of a designed pool / random), each call "
         "compared with the model; non-trivial = distinct such case with at least 3 distinct buffer sizes and a record "
@@ -919,6 +1021,27 @@ def run(tier, seed, **opts):
             discr[key] = discrimination(peaks, bs, width)
             for label in peaks or {"none": 0}:
                 col.case(("memory", bs, nb, width, label), sample=inp if label.startswith("streaming a long reverse") else None)
+        # indexing records of many lines with lines longer than the buffer: (buffer, line width, seed[, "CRLF"])
+        line_jobs = (
+            [(1000, 20_000, 21), (5000, 12_001, 23, "CRLF")]
+            if quick
+            else [(1, 2, 31), (1, 1000, 32), (2, 3, 33, "CRLF"), (7, 60, 34), (64, 65, 35), (64, 127, 36), (64, 100_000, 37), (1000, 1001, 38), (1000, 1999, 39, "CRLF"),
+                  (1000, 2001, 40), (1000, 20_000, 21), (1000, 250_000, 41), (4093, 40_930, 42), (4096, 8193, 43), (20_000, 50_001, 22, "CRLF"), (50_000, 50_001, 44),
+                  (50_000, 149_999, 45), (50_000, 250_000, 46, "CRLF")]
+        )
+        for k, (bs, width, ms, *crlf) in enumerate(line_jobs):
+            # the big ones: the mixed record only (files stay below 20 MB); the object route on every third in the thorough tier
+            gappy = max(60 * width, 8 * memory_limit(bs, width, True)) <= 7_000_000
+            object_route = not quick and k % 3 == 0 and gappy
+            msgs, peaks, n_res = long_line_check(d, bs, width, ms, b"\r\n" if crlf else b"\n", gappy, object_route)
+            inp = {"kind": "long-lines", "buffer_size": bs, "width": width, "seed": ms, "eol": "CRLF" if crlf else "LF", "gappy": gappy, "object_route": object_route}
+            for m in msgs:
+                col.fail(m, dict(inp, route=m.split(": ")[0]))
+            key = f"buffer {bs}, {-(-n_res // width)} lines of {width}{' CRLF' if crlf else ''}"
+            peaks_seen[key] = peaks
+            discr[key] = discrimination(peaks, bs, width)
+            for label in peaks or {"none": 0}:
+                col.case(("long-lines", bs, width, label), sample=inp if (bs, width) == (1000, 20_000) and not label.startswith("large") else None)
         for nb, ms in cli_jobs:
             msgs, peaks = cli_memory_check(d, nb, ms)
             inp = {"kind": "cli-memory", "n_buffers": nb, "seed": ms}
@@ -932,6 +1055,7 @@ def run(tier, seed, **opts):
             f"masks to length {max_mask} (quick: every other layout) x 20 layouts; {n_random} random files; <= {12 if quick else 30} buffer sizes per "
             "file; shared-index scripts: 1-2 random per random file, all 306 ordered pairs of 18 (buffer, gap character) settings on a designed file"
             + ("" if quick else " and 1500 random triples") + "; memory: " + "; ".join(f"{nb} buffers of {bs} (line {'whole record' if w == ONE_LINE else w})" for bs, nb, w, *_ in mem_jobs)
+            + "; indexing memory on records of >= 60 lines with lines longer than the buffer (buffer / line): " + ", ".join(f"{bs} / {w}" for bs, w, *_ in line_jobs)
             + "".join(f"; pretext-to-asm on {nb} buffers of {DEFAULT_BUFFER}" for nb, _ in cli_jobs)
             + "; streaming also with output lines far longer than the buffer (4 x the allowance, a third of / three times the scaffold, unwrapped; quick: one of them per file)"
             + "; limit 16 x buffer + 64 KiB (+ 8 x line while indexing); no write() with more than buffer-size residues of one row"
